@@ -4,7 +4,7 @@ Real code executed: is_case_missing, find_missing_cases, parse_into_cases (case_
 Harvester.harvest_cases for the find -> harvest -> find loop.  xarray / numpy are MiniXR / MiniNP
 (the function-local `import numpy as np` of is_case_missing is served from sys.modules).
 
-Each cell of the dataset is a symbolic *kind* (0 finite, 1 NaN, 2 infinite): null tests return
+Each cell of the dataset is a symbolic *kind* (0 finite, 1 NaN, 2 +inf, 3 -inf): null tests return
 symbolic booleans that MiniXR combines with `&`, so a location's verdict is one z3 term and the
 only forks are the ones inherent in the returned tuple (2 per location).
 """
@@ -35,6 +35,16 @@ class Cell:
     def _vf_isfinite(self):
         return self.kind == 0
 
+    def _vf_eq(self, other):
+        # comparison of the cell's value with a float (the finite value is 5.0)
+        if isinstance(other, float) and other == float("inf"):
+            return self.kind == 2
+        if isinstance(other, float) and other == float("-inf"):
+            return self.kind == 3
+        if isinstance(other, float) and other != other:
+            return False
+        return (self.kind == 0) & (other == 5.0)
+
     def __eq__(self, other):
         return isinstance(other, Cell) and self.kind == other.kind
 
@@ -54,10 +64,10 @@ def REAL(**kw):
 
 
 def real_value(kind):
-    return [5.0, float("nan"), float("inf")][kind]
+    return [5.0, float("nan"), float("inf"), float("-inf")][kind]
 
 
-def build(env, n1, n2, nvars, idim, kinds):
+def build(env, n1, n2, nvars, idim, kinds, transposed=False):
     """dataset over a (n1) x b (n2, 0 = no such dim) with x(a,b[,t]) and optionally y(a,b)"""
     la, lb = A[:n1], B[:n2]
     it = iter(kinds)
@@ -89,6 +99,10 @@ def build(env, n1, n2, nvars, idim, kinds):
     dv = {"x": (dims + (("time",) if idim else ()), nest_x())}
     if nvars == 2:
         dv["y"] = (dims, nest_y())
+    if transposed and lb and not idim and nvars == 1:
+        # the variable is stored as (b, a) although the coordinates are declared a, b: then Dataset.dims is
+        # (b, a) while the coordinates / indexes keep the order (a, b)
+        dv = {"x": (("b", "a"), [[val(cellsx[(a, b, None)]) for a in la] for b in lb])}
     if env.mode == "sym":
         ds = mx.Dataset(coords=coords, data_vars=dv)
     else:
@@ -119,7 +133,7 @@ def loc_missing(method, cellsx, cellsy, a, b, idim, nvars, t=None):
 
 
 def body_find(E, n1, n2, nvars, idim, meth, ign, k0, k1, k2, k3, k4, k5, k6, k7, k8, k9, k10, k11,
-              k12, k13, k14, k15, k16, k17):
+              k12, k13, k14, k15, k16, k17, transposed=False):
     n1 = concretize(n1, 1, 3)
     n2 = concretize(n2, 0, 2)
     nvars = concretize(nvars, 1, 2)
@@ -130,7 +144,8 @@ def body_find(E, n1, n2, nvars, idim, meth, ign, k0, k1, k2, k3, k4, k5, k6, k7,
     with E() as env:
         if env.mode == "sym":
             env.swap_module("numpy", env.np)
-        ds, cx, cy, la, lb = build(env, n1, n2, nvars, idim, kinds)
+        transposed = cbool(transposed) and n2 >= 1 and not idim and nvars == 1
+        ds, cx, cy, la, lb = build(env, n1, n2, nvars, idim, kinds, transposed)
         if not idim:
             ignore = None
         else:
@@ -138,14 +153,22 @@ def body_find(E, n1, n2, nvars, idim, meth, ign, k0, k1, k2, k3, k4, k5, k6, k7,
         fn_args, missing = ca.find_missing_cases(ds, ignore_dims=ignore, method=method)
         over_t = idim and ignore is None
         want_args = ("a",) + (("b",) if lb else ()) + (("time",) if over_t else ())
+        if transposed:
+            want_args = ("b", "a")          # grid order = the dataset's dimension order
         if tuple(fn_args) != want_args:
             return False
         want = []
-        for a in la:
-            for b in (lb or [None]):
-                for t in (T if over_t else [None]):
-                    if loc_missing(method, cx, cy, a, b, idim, nvars, t):
-                        want.append((a,) + ((b,) if lb else ()) + ((t,) if over_t else ()))
+        if transposed:
+            for b in lb:
+                for a in la:
+                    if loc_missing(method, cx, cy, a, b, idim, nvars, None):
+                        want.append((b, a))
+        else:
+            for a in la:
+                for b in (lb or [None]):
+                    for t in (T if over_t else [None]):
+                        if loc_missing(method, cx, cy, a, b, idim, nvars, t):
+                            want.append((a,) + ((b,) if lb else ()) + ((t,) if over_t else ()))
         got = [tuple(_py(v) for v in c) for c in missing]
         return got == want
 
@@ -236,21 +259,24 @@ def body_loop(E, k0, k1, k2, k3, v):
 BODIES = {}
 _G = globals()
 _K = " ".join("k%d:int" % i for i in range(18))
-_KR = " and ".join("0 <= k%d <= 2" % i for i in range(18))
+_KR = " and ".join("0 <= k%d <= 3" % i for i in range(18))
 
-_SIGF = "n1:int n2:int ign:int " + _K
-_B1 = ("datasets over a (1-3) x b (absent, 1, 2): <= 6 locations, one variable, every cell finite/NaN/inf "
+_SIGF = "n1:int n2:int ign:int transposed:bool " + _K
+_B1 = ("datasets over a (1-3) x b (absent, 1, 2): <= 6 locations, one variable, every cell finite/NaN/+inf/-inf "
        "(symbolic kinds); ")
 
 CONDS = (
-    split_conds(_G, "find_plain", body_find, _SIGF, ["1 <= n1 <= 3 and 0 <= n2 <= 2 and ign == 0", _KR],
+    split_conds(_G, "find_plain", body_find, _SIGF, ["1 <= n1 <= 3 and 0 <= n2 <= 2 and ign == 0", _KR,
+                                                     "not transposed or (n1 == 3 and n2 == 2)"],
                 "meth", [0, 1], fixed=dict(nvars=1, idim=False), timeout=300,
-                bounds=_B1 + "no internal dimension; meth 0 isnull 1 isfinite")
-    + split_conds(_G, "find_ignored", body_find, _SIGF, ["1 <= n1 <= 3 and 0 <= n2 <= 2 and 1 <= ign <= 2", _KR],
+                bounds=_B1 + "no internal dimension; also with the variable stored transposed (b, a) relative to "
+                                    "the coordinate declaration (3x2); meth 0 isnull 1 isfinite")
+    + split_conds(_G, "find_ignored", body_find, _SIGF, ["1 <= n1 <= 3 and 0 <= n2 <= 2 and 1 <= ign <= 2", _KR,
+                                                         "not transposed"],
                   "meth", [0, 1], fixed=dict(nvars=1, idim=True), timeout=400,
                   bounds=_B1 + "internal dimension 'time' (2 positions) ignored via 'time' or {'time'}: partial nulls along t")
     + split_conds(_G, "find_over_t", body_find, _SIGF,
-                  ["1 <= n1 <= 2 and 0 <= n2 <= 1 and (ign == 0 or ign == 3)", _KR],
+                  ["1 <= n1 <= 2 and 0 <= n2 <= 1 and (ign == 0 or ign == 3)", _KR, "not transposed"],
                   "meth", [0, 1], fixed=dict(nvars=1, idim=True), timeout=400,
                   bounds="a (1-2) x b (absent, 1) x t (2), t not ignored: locations include t")
     + split_conds(_G, "find_2var", body_find, "n1:int n2:int idim:bool ign:int " + _K,
@@ -260,7 +286,7 @@ CONDS = (
                          "t ignored when present")
     + [
         make_cond(_G, "requested", body_requested, "meth:int viacases:bool k0:int k1:int k2:int k3:int",
-                  ["0 <= meth <= 1 and 0 <= k0 <= 2 and 0 <= k1 <= 2 and 0 <= k2 <= 2 and 0 <= k3 <= 2"], timeout=300,
+                  ["0 <= meth <= 1 and 0 <= k0 <= 3 and 0 <= k1 <= 3 and 0 <= k2 <= 3 and 0 <= k3 <= 3"], timeout=300,
                   bounds="parse_into_cases over requested combos / cases x sub-grid on a 2x2 dataset, including "
                          "labels absent from the dataset, unsorted request order"),
         make_cond(_G, "loop", body_loop, "k0:int k1:int k2:int k3:int v:int",
